@@ -147,6 +147,9 @@ func c06MapMonitorScenarios(tier string) []Scenario {
 	out = append(out, c06UfsUserTableScenario(D, false), c06UfsUserTableScenario(D, true))
 	for i, sec := range []string{"walk", "clone", "stat", "open", "create", "remove", "clunk", "wstat"} {
 		out = append(out, c06PipelinedDependents(sec, i%2 == 0, D))
+		if i < 4 {
+			out = append(out, c06PipelinedDependentsFirst("attach", sec, i%2 == 1, D))
+		}
 	}
 	return out
 }
@@ -209,8 +212,16 @@ func c06UfsUserTableScenario(D int, two bool) Scenario {
 // scheduling point, so that half-made state is visible to the other request as it is on
 // real hardware.
 func c06PipelinedDependents(second string, dotu bool, D int) Scenario {
+	return c06PipelinedDependentsFirst("walk", second, dotu, D)
+}
+
+// first: the request that creates fid 5 - a Twalk from the attached root, or a Tattach
+func c06PipelinedDependentsFirst(first, second string, dotu bool, D int) Scenario {
 	var base, root string
 	name := fmt.Sprintf("ufs pipelined dependent requests (access-level schedules) second=%s dotu=%v", second, dotu)
+	if first != "walk" {
+		name += " first=" + first
+	}
 	body := func() {
 		vs.EnableHBFine()
 		os.RemoveAll(root)
@@ -246,8 +257,12 @@ func c06PipelinedDependents(second string, dotu bool, D int) Scenario {
 		case "wstat":
 			m2 = &wire.Msg{Type: wire.Twstat, Tag: 3, Fid: 5, Stat: wire.Stat{Type: 0xFFFF, Dev: 0xFFFFFFFF, Qid: wire.Qid{Type: 0xFF, Vers: 0xFFFFFFFF, Path: ^uint64(0)}, Mode: 0xFFFFFFFF, Atime: 0xFFFFFFFF, Mtime: 0xFFFFFFFF, Length: ^uint64(0), NUid: 0xFFFFFFFF, NGid: 0xFFFFFFFF, NMuid: 0xFFFFFFFF}}
 		}
+		m1 := twalk(2, 0, 5, "d")
+		if first == "attach" {
+			m1 = tattach(2, 5, wire.NOFID, un, uint32(os.Geteuid()), dotu)
+		}
 		vs.Window(true)
-		c.Send(dotu, twalk(2, 0, 5, "d"), m2)
+		c.Send(dotu, m1, m2)
 		vs.Idle()
 		vs.Window(false)
 		// the server is still there
